@@ -72,6 +72,7 @@ pub fn on_fresh_thread<R: Send + 'static>(
             keys::set_key_seed(key_seed);
             simplesl_verif_seams::sync::reset_lock_ids();
             simplesl_verif_seams::os::uninstall();
+            simplesl_verif_seams::fuel::reset(1500, 100_000);
             let r = guarded(f);
             simplesl_verif_seams::os::uninstall();
             simplesl_verif_seams::sync::sim_abort();
